@@ -3,6 +3,7 @@
 //!        ebml-sim replay <file>
 //!        ebml-sim selfcheck
 
+mod alloc;
 mod cases;
 mod checks;
 mod enc;
@@ -16,7 +17,13 @@ mod spec;
 mod val;
 mod wcases;
 
-use runner::{replay_check, run_check, Tier};
+use runner::{child_minimise, child_worker, replay_check, run_check, Tier};
+
+#[global_allocator]
+static GLOBAL: alloc::CountingAlloc = alloc::CountingAlloc;
+
+/// Checks whose runs may abort the process run their workers as child processes.
+const ISOLATED: [&str; 1] = ["C17"];
 
 macro_rules! dispatch {
     ($id:expr, $f:ident, $($arg:expr),*) => {
@@ -34,6 +41,7 @@ macro_rules! dispatch {
             "C12" => $f(&checks::c12::C12, $($arg),*),
             "C13" => $f(&checks::c13::C13, $($arg),*),
             "C14" => $f(&checks::c14::C14, $($arg),*),
+            "C17" => $f(&checks::c17::C17, $($arg),*),
             "C19" => $f(&checks::c19::C19, $($arg),*),
             "C05" => $f(&checks::c05::C05, $($arg),*),
             other => {
@@ -61,37 +69,69 @@ fn main() {
         eprintln!("harness error: self check failed: {}", e);
         std::process::exit(2);
     }
+    let tier_of = |s: Option<&String>| match s.map(|s| s.as_str()) {
+        Some("thorough") => Tier::Thorough,
+        _ => Tier::Quick,
+    };
+    let load = |path: &str| -> serde_json::Value {
+        let txt = match std::fs::read_to_string(path) {
+            Ok(t) => t,
+            Err(e) => {
+                eprintln!("harness error: {}: {}", path, e);
+                std::process::exit(2);
+            }
+        };
+        match serde_json::from_str(&txt) {
+            Ok(j) => j,
+            Err(e) => {
+                eprintln!("harness error: {}: {}", path, e);
+                std::process::exit(2);
+            }
+        }
+    };
     let code = match args[1].as_str() {
         "selfcheck" => {
             println!("selfcheck ok");
             0
         }
-        "replay" => {
+        // internal: child-process modes of isolated checks
+        "--worker" => {
+            let id = args[2].clone();
+            let tier = tier_of(args.get(3));
+            let (w, n, total): (u64, u64, u64) = (args[4].parse().unwrap(), args[5].parse().unwrap(), args[6].parse().unwrap());
+            dispatch!(id.as_str(), child_worker, tier, w, n, total)
+        }
+        "--minimise" => {
+            let id = args[2].clone();
+            let tier = tier_of(args.get(3));
+            let index: u64 = args[4].parse().unwrap();
+            dispatch!(id.as_str(), child_minimise, tier, index)
+        }
+        "--replay-worker" => {
             let path = args.get(2).cloned().unwrap_or_default();
-            let txt = match std::fs::read_to_string(&path) {
-                Ok(t) => t,
-                Err(e) => {
-                    eprintln!("harness error: {}: {}", path, e);
-                    std::process::exit(2);
-                }
-            };
-            let j: serde_json::Value = match serde_json::from_str(&txt) {
-                Ok(j) => j,
-                Err(e) => {
-                    eprintln!("harness error: {}: {}", path, e);
-                    std::process::exit(2);
-                }
-            };
+            let j = load(&path);
             let id = j.get("property").and_then(|p| p.as_str()).unwrap_or("").to_string();
             dispatch!(id.as_str(), replay_check, &j, &path)
         }
+        "replay" => {
+            let path = args.get(2).cloned().unwrap_or_default();
+            let j = load(&path);
+            let id = j.get("property").and_then(|p| p.as_str()).unwrap_or("").to_string();
+            if ISOLATED.contains(&id.as_str()) {
+                runner::replay_isolated(&id, &path)
+            } else {
+                dispatch!(id.as_str(), replay_check, &j, &path)
+            }
+        }
         id => {
-            let tier = match args.get(2).map(|s| s.as_str()) {
-                Some("thorough") => Tier::Thorough,
-                _ => Tier::Quick,
-            };
-            let runs = args.iter().position(|a| a == "--runs").and_then(|i| args.get(i + 1)).and_then(|s| s.parse().ok());
-            dispatch!(id, run_check, tier, runs)
+            let tier = tier_of(args.get(2));
+            let runs: Option<u64> = args.iter().position(|a| a == "--runs").and_then(|i| args.get(i + 1)).and_then(|s| s.parse().ok());
+            if ISOLATED.contains(&id) {
+                use runner::run_check_mode;
+                dispatch!(id, run_check_mode, tier, runs, true)
+            } else {
+                dispatch!(id, run_check, tier, runs)
+            }
         }
     };
     std::process::exit(code);
